@@ -54,6 +54,20 @@ def _prelude():
 
     def is_int(x):
         return isinstance(x, int) and not isinstance(x, bool)
+    ctx = {'data': b''}
+
+    def file_pred(name, lo, hi):
+        """native meaning of the uninterpreted whole-content predicates used in contracts"""
+        data = ctx['data'][lo:hi]
+        if name == 'dat':
+            import io
+            from TotalDepth.DAT import DAT_parser
+            try:
+                return bool(DAT_parser.can_parse_file(io.StringIO(data.decode('ascii'))))
+            except UnicodeDecodeError:
+                return False
+        raise RuntimeError('unknown content predicate %r' % name)
+
     def py_float_ok(s):
         try:
             float(s)
@@ -75,7 +89,7 @@ def _prelude():
         return s.strip()
     return dict(forall_n=forall_n, forall=forall, exists=exists, implies=implies, iff=iff, ite=ite, is_none=is_none, real=real,
                 pow2=pow2, floor=floor, seq=seq, is_int=is_int, py_float_ok=py_float_ok, py_float=py_float, py_int_ok=py_int_ok,
-                py_int=int, py_strip=py_strip)
+                py_int=int, py_strip=py_strip, file_pred=file_pred, _ctx=ctx)
 
 
 class _Lazy(ast.NodeTransformer):
@@ -200,6 +214,9 @@ def judge(job, inputs, verbose=False, prebuilt=None):
         for p, kind in job.get('ghost', {}).items():
             args[p] = build(kind, inputs.get(p), module)
     pre_ns = copy.deepcopy(args)
+    for v_ in args.values():
+        if hasattr(v_, 'getvalue') and hasattr(v_, 'data'):
+            glob['_ctx']['data'] = bytes(v_.getvalue())
     try:
         for r in job['requires']:
             if not eval_spec(r, args, pre_ns, glob):
